@@ -16,6 +16,8 @@
 //	mapwrite  m[k] = v, m[k] op= v, m[k]++ where m is a map that is not a local variable all of
 //	          whose definitions in the function are make(…)/composite literals/call results
 //	rangeptr  for _, v := range xs with pointer elements where the body dereferences v (v.f, *v)
+//	ifacecmp  a == b / a != b where both operands have a non-error interface type and neither is nil
+//	          ("comparing uncomparable type" when both hold a slice / map / func)
 //	recursion functions on a cycle of the static call graph (see callgraph.go)
 //
 // Entry = (file, func, kind, expr, guard, n): no line numbers, identical tuples are merged and
